@@ -158,6 +158,32 @@ class AtomicMonitor(Monitor):
             if not seq.is_register_mappable() else None
         if not seq.is_register_mappable():
             compare("switch_register", lambda: seq.switch_register(seq.register))
+        elif getattr(r, "mapping", None):
+            # a mappable register: building with a full mapping gives the same timeline; building with only the first
+            # k ids (enough for every atom the calls name) leaves the original what it was
+            mapping = r.mapping
+            compare("build_mapped", lambda: seq.build(qubits=dict(mapping), **unused))
+            named = set()
+            for c in base["chans"].values():
+                if c["obj"].addressing == "Local":
+                    for s_ in c["slots"]:
+                        named.update(s_["targets"])
+            for d_ in base["bref"].values():
+                named.update(q for q, v in d_.items() if len(v[0]) > 1)
+            order = [str(q) for q in seq._register.qubit_ids]
+            kmin = max([order.index(q) + 1 for q in named if q in order] + [1])
+            if kmin < len(order) and not any(c["detmap"] is not None for c in base["chans"].values()):
+                part = {q: t for q, t in list(mapping.items())[:kmin]}
+                try:
+                    with warnings.catch_warnings():
+                        warnings.simplefilter("ignore")
+                        seq.build(qubits=part, **unused)
+                    ctx.count("partial_mapping_builds")
+                except Exception:
+                    ctx.count("partial_mapping_build_refused")
+                if state_key(snapshot(seq)) != state_key(base):
+                    ctx.violation("read-only", f"build with a partial mapping ({kmin} of {len(order)} ids) changed the "
+                                  f"original sequence: {diff(base, snapshot(seq))[:3]}", "readonly:build_partial_mapping")
         ids = list(seq._register.qubit_ids)
         dim3 = len(next(iter(seq._register.layout.coords if seq.is_register_mappable() else
                              seq._register.qubits.values()))) == 3 if ids else False
